@@ -174,6 +174,18 @@ theorem destructObject_step (rh : HookFn) (hrh : HookOK rh) (w : W) (o : Oid) :
 theorem touch_same (w : W) (o : Oid) : Same w (touch w o) := by
   cases o <;> exact ⟨rfl, rfl, rfl, rfl, rfl, rfl, rfl, rfl, rfl, by trx⟩
 
+theorem armInputTo_id (tag : String) (c : Conn) : (armInputTo tag c).id = c.id := by
+  unfold armInputTo; split <;> rfl
+
+theorem armInputTo_closing (tag : String) (c : Conn) (h : c.closing = true) : (armInputTo tag c).closing = true := by
+  unfold armInputTo; split <;> exact h
+
+theorem setInputTo_step (w : W) (o : Oid) (tag : String) : Step w (setInputTo w o tag) := by
+  unfold setInputTo
+  split
+  · exact Step.refl w
+  · exact mapConn_step w _ (armInputTo tag) (armInputTo_id tag) (armInputTo_closing tag)
+
 theorem runOps_step (rh : HookFn) (hrh : HookOK rh) (self : Oid) :
     ∀ (ops : List Op) (w : W), Step w (runOps rh self ops w).1 := by
   intro ops
@@ -218,6 +230,9 @@ theorem runOps_step (rh : HookFn) (hrh : HookOK rh) (self : Oid) :
       show Step w (runOps rh self rest _).1
       refine Step.trans ?_ (ih _)
       exact Same.step ⟨rfl, rfl, rfl, rfl, rfl, rfl, rfl, rfl, rfl, by trx⟩
+    | it tag =>
+      show Step w (runOps rh self rest (setInputTo (emit w _) self tag)).1
+      exact Step.trans (Step.trans (emit_same _ _).step (setInputTo_step _ _ _)) (ih _)
 
 /-- every hook keeps the invariant, for every nesting fuel and every script oracle -/
 theorem runHook_ok (S : Scripts) : ∀ fuel, HookOK (runHook S fuel) := by
